@@ -227,7 +227,15 @@ func H_C20_cursor_terminal_state_sequential() {
 //
 //vp:preempt 2
 //vp:bounds 0..2 batches of 1 row, 0..1 recorded failure, a canceller goroutine (present or not); at most 2 forced context switches at channel/select/mutex operations in addition to switches at blocking points
-func H_C20_cursor_terminal_state_concurrent_cancel() {
+func H_C20_cursor_terminal_state_concurrent_cancel() { vpCursorConcurrentCancel() }
+
+//vp:preempt 3
+//vp:thorough
+//vp:maxpaths 2000000
+//vp:bounds 0..2 batches of 1 row, 0..1 recorded failure, a canceller goroutine (present or not); at most 3 forced context switches at channel/select/mutex operations in addition to switches at blocking points
+func H_C20_cursor_terminal_state_three_forced_switches() { vpCursorConcurrentCancel() }
+
+func vpCursorConcurrentCancel() {
 	w := vpNewCursorWorld()
 	nErr := nondetChoice(2)
 	w.errs = []error{vpErrBlockA, vpErrBlockB}
